@@ -154,7 +154,7 @@ def run_case(case):
 
     class D(L['Base']):
         async def on_setup(self, data_encoding, metadata_encoding, payload):
-            calls.append(('on_setup', bytes(payload.data or b'')))
+            calls.append(('on_setup', bytes(payload.data or b''), bytes(data_encoding), bytes(metadata_encoding)))
 
         async def on_metadata_push(self, metadata):
             calls.append(('on_metadata_push', bytes(metadata.metadata or b'')))
@@ -178,7 +178,9 @@ def run_case(case):
                              limit_rate=case.get('h_limit') or MAXN)
     res = {'case': case}
     with Tap(L) as tap:
-        net = NET.Net(case['lenreq'], None, None, handler_factories={'server': L['hf'](lambda: D())})
+        net = NET.Net(case['lenreq'], None, None, handler_factories={'server': L['hf'](lambda: D())},
+                      client_kwargs={'data_encoding': b'application/x-data', 'metadata_encoding': b'message/x-meta',
+                                     'setup_payload': Payload(b'hello')})
         try:
             client = L['Client'](net.ep['client'])
             obs = Obs()
@@ -196,7 +198,14 @@ def run_case(case):
 
             def subscribe(o):
                 box['d'] = o.subscribe(on_next=obs.on_next, on_error=obs.on_error, on_completed=obs.on_completed)
-            if kind == 'stream':
+            core_pub = None
+            if kind == 'channel-core':
+                # the requester is a core-API application whose publisher flags COMPLETE on its last element
+                core_pub = NET.RecPub(None, None)
+                csub = NET.RecSub(None, None)
+                net.act(lambda: net.ep['client'].request_channel(Payload(b'req'), core_pub).subscribe(csub))
+                o = None
+            elif kind == 'stream':
                 o = client.request_stream(Payload(b'req'), request_limit=case['limit'])
             elif kind == 'channel':
                 up = source(case['up_n'], None, b'u') if case['up_n'] is not None else None
@@ -207,11 +216,26 @@ def run_case(case):
                 o = client.fire_and_forget(Payload(b'fire'))
             else:
                 o = client.metadata_push(b'pushed')
-            net.act(lambda: subscribe(o))
             disposed = False
+            if o is not None and case.get('dispose_after') == -1:
+                def sub_and_dispose():
+                    subscribe(o)
+                    box['d'].dispose()          # same loop turn: the helper tasks have not run yet
+                net.act(sub_and_dispose)
+                disposed = True
+                res['events_at_dispose'] = 0
+            elif o is not None:
+                net.act(lambda: subscribe(o))
+            core_sent = 0
             for _ in range(4000):
                 net.loop.settle()
                 credit_check()
+                if core_pub is not None and core_pub.subscriber is not None and core_sent < case['up_n']:
+                    last = core_sent == case['up_n'] - 1
+                    i = core_sent
+                    net.act(lambda: core_pub.subscriber.on_next(Payload(b'u%d' % i), last))
+                    core_sent += 1
+                    continue
                 if case.get('dispose_after') is not None and not disposed and \
                         sum(1 for e in obs.events if e[0] == 'next') >= case['dispose_after']:
                     net.act(lambda: box['d'].dispose())
@@ -270,11 +294,14 @@ def oracle(res):
                     bad('events-after-dispose', at_dispose=res.get('events_at_dispose'), total=len(ev))
                 finished = any(e[0] in ('completed', 'error') for e in ev[:res.get('events_at_dispose', 0)])
                 cancels = [f for f in res['client_wire'] if f['t'] == 'Cancel']
-                if not finished and len(cancels) != 1:
-                    bad('dispose-did-not-cancel-the-stream', cancels=len(cancels))
+                requested = any(f['t'] in ('RequestStream', 'RequestChannel') for f in res['client_wire'])
+                if not finished and len(cancels) != (1 if requested else 0):
+                    bad('dispose-did-not-cancel-the-stream', cancels=len(cancels), request_sent=requested)
         # request-n on the wire
         first = [f for f in res['client_wire'] if f['t'] in ('RequestStream', 'RequestChannel')]
-        if len(first) != 1 or first[0].get('n') != case['limit']:
+        if case.get('dispose_after') == -1 and not first:
+            pass            # disposed before anything was sent
+        elif len(first) != 1 or first[0].get('n') != case['limit']:
             bad('initial-request-n', frames=repr(first)[:200])
         for f in res['client_wire']:
             if f['t'] == 'RequestN' and f.get('sid') == 1 and f.get('n') != case['limit'] and kind == 'stream':
@@ -290,8 +317,18 @@ def oracle(res):
             if res['handler_events'] != wantu:
                 bad('handler-observer-saw-something-else', expected=repr(wantu)[:300], got=repr(res['handler_events'])[:300])
         want_call = 'request_stream' if kind == 'stream' else 'request_channel'
-        if [c for c in res['calls'] if c[0] == want_call] != [(want_call, b'req')]:
+        if case.get('dispose_after') == -1 and not first:
+            pass
+        elif [c for c in res['calls'] if c[0] == want_call] != [(want_call, b'req')]:
             bad('delegate-not-reached', calls=repr(res['calls'])[:200])
+    elif kind == 'channel-core':
+        wantu = [('next', b'u%d' % i) for i in range(case['up_n'])] + [('completed',)]
+        if res['handler_events'] != wantu:
+            bad('handler-observer-saw-something-else', expected=repr(wantu)[:300], got=repr(res['handler_events'])[:300])
+        stray = [f for f in res['server_wire'] if f['t'] == 'RequestN']
+        total = sum(f['n'] for f in stray)        # includes the request made at on_subscribe
+        if case.get('h_limit') and total > case['up_n'] + case['h_limit']:
+            bad('handler-side-requested-beyond-limit', requested=total, received=case['up_n'])
     elif kind == 'response':
         n, fa = case['n'], case['fail_at']
         if fa is not None and fa <= min(n, 1) and fa == 0:
@@ -313,8 +350,9 @@ def oracle(res):
     else:
         if ('on_metadata_push', b'pushed') not in res['calls']:
             bad('delegate-not-reached', calls=repr(res['calls'])[:200])
-    if not any(c[0] == 'on_setup' for c in res['calls']):
-        bad('delegate-not-reached:on_setup', calls=repr(res['calls'])[:200])
+    setups = [c for c in res['calls'] if c[0] == 'on_setup']
+    if setups != [('on_setup', b'hello', b'application/x-data', b'message/x-meta')]:
+        bad('delegate-on_setup', calls=repr(setups)[:200])
     return out
 
 
@@ -359,8 +397,11 @@ def gen_cases(ctx, n):
                 cases.append(dict(ver=ver, kind='stream', n=cnt, limit=limit, fail_at=None, dispose_after=None))
         for fa in (0, 1, 3, 5):
             cases.append(dict(ver=ver, kind='stream', n=5, limit=2, fail_at=fa, dispose_after=None))
-        for da in (0, 1, 3):
+        for da in (-1, 0, 1, 3):
             cases.append(dict(ver=ver, kind='stream', n=6, limit=rng.choice([1, 2, MAXN]), fail_at=None, dispose_after=da))
+        cases.append(dict(ver=ver, kind='channel', n=3, limit=2, fail_at=None, dispose_after=-1, up_n=2, h_limit=2))
+        for up, hl in ((2, 2), (4, 2), (3, 3), (3, 2), (1, 1), (5, MAXN)):
+            cases.append(dict(ver=ver, kind='channel-core', n=0, limit=1, fail_at=None, dispose_after=None, up_n=up, h_limit=hl))
         for cnt in (0, 3):
             cases.append(dict(ver=ver, kind='stream', n=cnt, limit=2, fail_at=None, dispose_after=None, factory=True))
         for up in (None, 0, 1, 5):
@@ -375,13 +416,17 @@ def gen_cases(ctx, n):
         cnt = rng.choice([0, 1, 2, 5, 12, 30])
         c = dict(ver=rng.choice(['rx4', 'rx3']), kind=kind, n=cnt, limit=rng.choice([1, 2, 3, 5, 10, MAXN]),
                  fail_at=rng.choice([None, None, rng.randint(0, cnt)]),
-                 dispose_after=rng.choice([None, None, None, rng.randint(0, max(cnt, 1))]),
+                 dispose_after=rng.choice([None, None, None, -1, rng.randint(0, max(cnt, 1))]),
                  factory=(kind == 'stream' and rng.random() < 0.2))
         if c['factory']:
             c['fail_at'] = None
         if kind == 'channel':
             c.update(up_n=rng.choice([None, 0, 1, 6]), h_limit=rng.choice([1, 2, 4, MAXN]))
         cases.append(c)
+        if rng.random() < 0.15:
+            hl = rng.choice([1, 2, 3])
+            cases.append(dict(ver=c['ver'], kind='channel-core', n=0, limit=1, fail_at=None, dispose_after=None,
+                              up_n=hl * rng.randint(1, 3) + rng.choice([0, 0, 1]), h_limit=hl))
     for i, c in enumerate(cases):
         c.setdefault('factory', False)
         c.setdefault('up_n', None)
